@@ -813,3 +813,74 @@ Proof.
       apply (Hgen s _ _ c0 t0 E0 Hc0); [apply digits_of_all_digits | apply digs_all_digits].
     + apply (Hgen s _ [] c0 t0 E0 Hc0); [apply digits_of_all_digits | constructor].
 Qed.
+
+(* ------------------------------------------------------------------ length of the emitted string *)
+Lemma declen_div_pow : forall o k, small o -> 1 <= k < Z.of_nat (declen o) -> Z.of_nat (declen (o / 10 ^ k)) = Z.of_nat (declen o) - k.
+Proof.
+  intros o k Hs Hk. destruct (declen_spec o Hs) as (A & B & [C | C]); [lia|].
+  assert (0 < 10 ^ k) by (apply pow10_pos; lia).
+  assert (small (o / 10 ^ k)) as Hs'.
+  { destruct Hs. split; [apply Z.div_pos; lia|]. apply Z.div_lt_upper_bound; [lia|]. nia. }
+  apply declen_unique_Z; try assumption; try lia.
+  - apply Z.div_lt_upper_bound; [lia|]. rewrite <- pow10_split by lia. replace (k + (Z.of_nat (declen o) - k)) with (Z.of_nat (declen o)) by lia. exact B.
+  - destruct (Z.eq_dec (Z.of_nat (declen o) - k) 1); [left; assumption | right].
+    apply Z.div_le_lower_bound; [lia|]. rewrite <- pow10_split by lia.
+    replace (k + (Z.of_nat (declen o) - k - 1)) with (Z.of_nat (declen o) - 1) by lia. exact C.
+Qed.
+
+Definition zlen (s : str) : Z := Z.of_nat (List.length s).
+
+Lemma zlen_app : forall a b, zlen (a ++ b) = zlen a + zlen b.
+Proof. intros. unfold zlen. rewrite app_length. lia. Qed.
+
+Lemma emit_parts_zlen : forall sign p, parts_ok p ->
+  zlen (emit_parts sign p) <=
+  (if sign && (negb (p_int p =? 0) || negb (p_dec p =? 0)) then 1 else 0) + Z.of_nat (declen (p_int p)) + p_tz p +
+  (if p_dec p =? 0 then 0 else 1 + p_lz p + Z.of_nat (declen (p_dec p))).
+Proof.
+  intros sign p (Hi & Hd & Ht & Hl). unfold emit_parts, to_chars_uint64.
+  rewrite !zlen_app. unfold zlen at 2 3. rewrite digits_of_length, zeros_length, Z2Nat.id by lia.
+  assert (zlen (if sign && (negb (p_int p =? 0) || negb (p_dec p =? 0)) then ["-"%char] else []) =
+          (if sign && (negb (p_int p =? 0) || negb (p_dec p =? 0)) then 1 else 0)) as -> by (destruct (sign && _); reflexivity).
+  destruct (Z.eqb_spec (p_dec p) 0); cbn [negb].
+  - change (zlen []) with 0. lia.
+  - unfold zlen. cbn [List.length]. rewrite app_length, zeros_length, digits_of_length. lia.
+Qed.
+
+(* the layout of o * 10^e (o with l = declen o digits) takes at most: sign + integer digits + point + decimals *)
+Lemma split_parts_zlen : forall sign o e l, 0 <= o < 10 ^ 17 -> (o = 0 \/ l = Z.of_nat (declen o)) -> (o = 0 -> e <= 0) ->
+  zlen (emit_parts sign (split_parts o e l)) <=
+  if o =? 0 then 1 else 1 + (if 0 <=? e then l + e else if - e <? l then l + 1 else 2 - e).
+Proof.
+  intros sign o e l Ho Hl H0.
+  destruct (split_parts_spec o e l Ho Hl) as (Hok & _ & Hz & Hnz).
+  pose proof (emit_parts_zlen sign _ Hok) as L. pose proof (small_17 o Ho) as So.
+  revert L Hok Hz Hnz. unfold split_parts.
+  destruct (Z.leb_spec 0 e) as [He | He].
+  - cbn [p_int p_dec p_tz p_lz]. rewrite Z.eqb_refl. intros L _ _ _.
+    destruct (Z.eqb_spec o 0) as [-> | No].
+    + rewrite andb_false_r in L. change (declen 0) with 1%nat in L. specialize (H0 eq_refl). lia.
+    + destruct Hl as [-> | ->]; [congruence|]. destruct (sign && _); lia.
+  - set (nexp := - e). assert (1 <= nexp) by (unfold nexp; lia).
+    destruct (Z.ltb_spec nexp l) as [Hin | Hout].
+    + unfold pow_10. replace (l - (l - nexp)) with nexp by lia.
+      destruct (Z.eqb_spec o 0) as [-> | No].
+      { rewrite Z.div_0_l, Z.mod_0_l by (pose proof (pow10_pos nexp ltac:(lia)); lia).
+        destruct (0 <? 10 ^ (nexp - 1)); cbn [p_int p_dec p_tz p_lz]; rewrite Z.eqb_refl; cbn [negb orb]; rewrite andb_false_r;
+          change (declen 0) with 1%nat; intros; lia. }
+      destruct Hl as [-> | Hl]; [congruence|].
+      assert (Z.of_nat (declen (o / 10 ^ nexp)) = l - nexp) as Dip by (rewrite Hl; apply declen_div_pow; [assumption | lia]).
+      assert (0 < 10 ^ nexp) as Ppos by (apply pow10_pos; lia).
+      pose proof (Z.mod_pos_bound o (10 ^ nexp) Ppos) as DB.
+      assert (o mod 10 ^ nexp <= o) by (apply Z.mod_le; lia).
+      assert (small (o mod 10 ^ nexp)) as Sdp by (apply small_17; lia).
+      assert (decimalLength17 (o mod 10 ^ nexp) = Z.of_nat (declen (o mod 10 ^ nexp))) as D17 by (apply decimalLength17_declen; lia).
+      destruct (Z.ltb_spec (o mod 10 ^ nexp) (10 ^ (nexp - 1))) as [Hs | Hb]; cbn [p_int p_dec p_tz p_lz]; intros L _ _ _.
+      * rewrite Dip, D17 in L. destruct (sign && _), (o mod 10 ^ nexp =? 0); lia.
+      * assert (Z.of_nat (declen (o mod 10 ^ nexp)) = nexp) as Dd by (apply declen_unique_Z; try assumption; try lia).
+        rewrite Dip, Dd in L. destruct (sign && _), (o mod 10 ^ nexp =? 0); lia.
+    + cbn [p_int p_dec p_tz p_lz]. intros L _ _ _. change (declen 0) with 1%nat in L.
+      destruct (Z.eqb_spec o 0) as [-> | No].
+      * rewrite Z.eqb_refl in L. cbn [negb orb] in L. rewrite andb_false_r in L. lia.
+      * destruct Hl as [-> | ->]; [congruence|]. destruct (sign && _); lia.
+Qed.
